@@ -1,10 +1,13 @@
 """Per-property configuration for ./check (pipelines, trusted base, generation rule)."""
 
+TB_TRANSLATED = "function-level translator translate/rs2lean.py (Rust subset -> Lean over Model/Rt.lean) and the semantics of Rt's primitives; validated on every run by executing the translated functions on all correspondence lines (three-way agreement) and, for x86-64, tied to the model by the bridge theorems of lean/InjModel/Tie"
+
 TB_COMMON = [
     "Lean 4.33 kernel; axioms limited to propext, Quot.sound, Classical.choice (audited per theorem from #print axioms)",
     "statements in lean/InjModel/Props and the executable property predicates in lean/Driver",
     "translate/extract.py (Rust -> Generated/*.lean; items it does not recognise keep the pinned value of translate/pinned.json and are listed in coverage.translator) and the correspondence harness (harness/: shim libc, shadow crate build.rs transformations, generators)",
     "all of /repo is modelled, not verified: the tie is the differential correspondence run on every check",
+    TB_TRANSLATED,
 ]
 ISA_X86 = "hand-written x86-64 ISA fragment (E9 rel32, REX.W B8 imm64, FF E0, REX.W C7 C0 imm32, C3) in Model/X86.lean, validated against the real CPU by native runs"
 
@@ -98,6 +101,7 @@ TABLE["C17"] = {
 TABLE["C01"]["pipelines"].append(HIST_PIPE)
 TABLE["C01"]["fail_keys"] = ["c01.", "__nokey__"]
 TABLE["C01"]["rule"] += "; plus the install/drop histories of C02 (entries at page offsets 4093/4091 spanning two pages, 5 address regions from 0x10000 to the top of user space, near and far fakes, six installation flavours): the entry bytes are decoded and followed through the trampoline, and the target is really called"
+TABLE["C01"]["level_text"] += " Bridge theorems (Tie/X86, Tie/Install): generate_branch_to_target_function, protected_region_size, patch_function, patch_and_guard and replace_function_with_other_function as translated from the source on this run equal the model functions / perform exactly the OS calls of Machine.installX86 (T_x86_genBranch, T_x86_install_refines)."
 TABLE["C01"]["level_text"] += " Theorem C01_reach lifts this to the installed machine state for every placement (incl. page-spanning entries): from func, at most four instructions reach exactly fake, only rip/rax change, and the install does not fault."
 
 CNT_PIPE = {"name": "counter", "cmd": ["counter"], "n_quick": 150, "n_thorough": 3000, "timeout": 900, "timeout_thorough": 3400}
@@ -139,7 +143,7 @@ TABLE["C11"] = {
     "rule": "6 target addresses (0x10000 and 64 MiB: window clipped at 0; exactly 128 MiB; 4 GiB; mid; top of user space) x sizes 8/12/20 x boundary scripts (placement exactly at +-range, one page inside, one page outside then inside, failures then honour, far away), PRNG scripts of 1-6 answers, whole-window exhaustion (all 65537 probes fail) and full-except-one-page at offsets 0, 1, middle, last-1, last for clipped and unclipped windows, real kernel with the +-128 MiB neighbourhood reserved PROT_NONE except one page (3 positions) or entirely, and one complete install whose allocation is exhausted. Distinct by (src, size, answer sequence)",
     "assumptions": ["mmap never returns an address the process already holds (freshness of the oracle)", "src + range does not overflow u64 (user-space addresses)"],
     "level_text": "Theorems for all target addresses, page sizes and kernel answer sequences: an accepted placement is strictly within +-128 MiB and is the only mapping kept; on panic nothing obtained is left mapped (C11_sound); the loop makes at most 2*range/page+1 probes (C11_terminates, C11_probe_bound); every accepted placement is encodable by the x86-64 entry branch and by the AArch64 B (C11_reach_x86, C11_reach_a64, through C01/C15). Correspondence: the unmodified allocator under scripted and real kernels, event log compared call by call.",
-    "level_note": "Trusted: Lean kernel, shim, oracle freshness. Windows VirtualAlloc path not modelled.",
+    "level_note": "Trusted: Lean kernel, shim, oracle freshness. Windows VirtualAlloc path not modelled. Bridge T_alloc: allocate_jit_memory_unix as translated from the source on this run (fuel-bounded loop, OS calls logged) equals Alloc.search for every target, page size and answer script; T_alloc_sound reads C11's range clause off the translated code.",
 }
 
 TABLE["C04"] = {
